@@ -9,3 +9,11 @@ mod keycodes;
 mod phonetic;
 pub mod suggestion;
 mod utility;
+
+// Verification hook: compiled only under `cargo kani` (cfg(kani)); pulls in the
+// proof harnesses kept outside this repository. Ordinary builds never see it.
+#[cfg(kani)]
+#[allow(unexpected_cfgs)]
+mod verif_kani {
+    include!(concat!(env!("RITI_VERIF_KANI"), "/harness.rs"));
+}
